@@ -365,6 +365,12 @@ class LFDomain:
                 ulo, uhi = self.rng(path, u)
                 if ulo >= 0:
                     return u + v
+        # x | c = x + c - (x & c) for a constant c
+        for u, v in ((x, y), (y, x)):
+            if v.is_const() and v.c >= 0:
+                ulo, uhi = self.rng(path, u)
+                if ulo >= 0 and uhi < (1 << w):
+                    return u + v.c - self.and_const(path, u, v.c, w, False)
         raise Unsupported("| with overlapping operands")
 
     def unop(self, path, u, x, ty):
